@@ -50,6 +50,8 @@ def limit_df(df, fs, start=None, stop=None, reset_indices=True):
 
     # Ensure arguments are within valid range
     check_param_range(fs, 'fs', (0, np.inf))
+    if fs == 0:
+        raise ValueError('fs must be greater than zero.')
     if start is not None:
         check_param_range(start, 'start', (0, np.inf if stop is None else stop))
     if stop is not None:
